@@ -2,7 +2,10 @@ module verif/harness
 
 go 1.21.0
 
-require github.com/foxboron/go-uefi v0.0.0
+require (
+	github.com/foxboron/go-uefi v0.0.0
+	go.mozilla.org/pkcs7 v0.0.0-20200128120323-432b2356ecb1
+)
 
 require (
 	github.com/pkg/errors v0.9.1 // indirect
